@@ -83,6 +83,25 @@ type zrState struct {
 func (eng *Engine) initStubs2() {
 	s := eng.stubs
 	eng.initStubsBinary()
+	// strings.EqualFold: ASCII case folding only (non-ASCII bytes must match
+	// exactly); the real function walks Unicode fold orbits per rune.
+	s["strings.EqualFold"] = func(e *Exec, _ *frame, _ *ssa.Function, args []Value) Value {
+		a, b := args[0].(*StrV), args[1].(*StrV)
+		tc := e.tc
+		if len(a.b) != len(b.b) {
+			return tc.False
+		}
+		r := tc.True
+		lower := func(x *Term) *Term {
+			isUp := tc.BAnd(tc.Cmp(OpUle, tc.BV('A', 8), x), tc.Cmp(OpUle, x, tc.BV('Z', 8)))
+			return tc.Ite(isUp, tc.Bin(OpOr, x, tc.BV(0x20, 8)), x)
+		}
+		for i := range a.b {
+			r = tc.BAnd(r, tc.Eq(lower(a.b[i]), lower(b.b[i])))
+		}
+		return r
+	}
+	eng.initReflect()
 	// ParseFloat: float parsing is outside the claims; any value, no error.
 	s["strconv.ParseFloat"] = func(e *Exec, _ *frame, _ *ssa.Function, args []Value) Value {
 		st := args[0].(*StrV)
